@@ -132,6 +132,36 @@ func (g *gen) pairs(max int64) {
 	w.monConsistent()
 }
 
+// ---------------------------------------------------------------------------------------------
+// 1b. two configured logs with DIFFERENT keys: a key of one log is worth nothing for the other's origin
+// (seed C14-6: one verifier list shared by all logs)
+// ---------------------------------------------------------------------------------------------
+func (g *gen) foreignKey() {
+	w := newWorld(g.kr, false, g.tmp, []*tree{g.A, g.B})
+	w.restart(1)
+	ox, oy := "fk.example/x", "fk.example/y"
+	w.addLog(1, ox, kLogA, fOK, fOK, fOK, fOK)
+	w.addLog(1, oy, kLogA2, fOK, fOK, fOK, fOK)
+	w.addSeq(1, g.req(0, nil, g.ckpt(ox, g.A, 2, good(kLogA))), fOK, fOK, fOK, false)
+	w.addSeq(1, g.req(0, nil, g.ckpt(oy, g.A, 3, good(kLogA2))), fOK, fOK, fOK, false)
+	// x's history continued (and forked) under y's key only, under y's key plus a broken x signature, and the reverse
+	w.addSeq(1, g.req(2, g.A.proveTree(5, 2), g.ckpt(ox, g.A, 5, good(kLogA2))), fOK, fOK, fOK, false)
+	if g.P < 7 {
+		w.addSeq(1, g.req(2, g.B.proveTree(7, 2), g.ckpt(ox, g.B, 7, good(kLogA2))), fOK, fOK, fOK, false)
+	}
+	w.addSeq(1, g.req(2, g.A.proveTree(5, 2), g.kr.build(noteSpec{kind: "ckpt", origin: ox, size: "5", root: g.A.root(5),
+		sigs: []sigSpec{{kLogA2, sGood}, {kLogA, sGarbage}}}, g.r)), fOK, fOK, fOK, false)
+	w.addSeq(1, g.req(3, g.A.proveTree(6, 3), g.ckpt(oy, g.A, 6, good(kLogA))), fOK, fOK, fOK, false)
+	w.addSeq(1, g.req(0, nil, g.ckpt("fk.example/z", g.A, 4, good(kLogA, kLogA2))), fOK, fOK, fOK, false)
+	// after a restart (the verifier sets are rebuilt from the stored configuration)
+	w.restart(1)
+	w.addSeq(1, g.req(2, g.A.proveTree(4, 2), g.ckpt(ox, g.A, 4, good(kLogA2, kForE))), fOK, fOK, fOK, false)
+	// the genuine continuations still go through, each under its own key (and with the other log's signature beside it)
+	w.addSeq(1, g.req(2, g.A.proveTree(3, 2), g.ckpt(ox, g.A, 3, good(kLogA))), fOK, fOK, fOK, false)
+	w.addSeq(1, g.req(3, g.A.proveTree(6, 3), g.ckpt(oy, g.A, 6, good(kLogA, kLogA2))), fOK, fOK, fOK, false)
+	w.monConsistent()
+}
+
 func (g *gen) variant(w *world, i int, o string, old, new int64, right []tlog.Hash, v string) {
 	nt := g.ckpt(o, g.A, new, good(kLogA))
 	switch v {
